@@ -195,7 +195,7 @@ impl Prop for C11 {
         "C11"
     }
     fn strategy(&self, _tier: Tier) -> BoxedStrategy<Case> {
-        let names: Vec<String> = ["a", "b", "c", "x", "y", "notx", "minx"].iter().map(|s| s.to_string()).collect();
+        let names: Vec<String> = ["a", "b", "c", "x", "y", "notx", "minx", "_c1", "__u"].iter().map(|s| s.to_string()).collect();
         let konst = proptest::collection::vec((0usize..3, prop_oneof![Just(2.0), Just(0.5), Just(-3.0), Just(7.25)]), 0..=2)
             .prop_map(|v| v.into_iter().enumerate().map(|(i, (_, c))| (format!("k{i}"), c)).collect::<Vec<_>>());
         prop_oneof![
